@@ -102,7 +102,20 @@ impl Family for C08 {
             };
             Op8::Copy { to: rng.chance(1, 2), n }
         };
-        // pre-history
+        // pre-history; one run in six starts from the maximal buffer fill 2W-1 (one bit
+        // read, then a full-width peek), optionally reduced by a few bits
+        if rkind.buffered() && rng.chance(1, 6) {
+            ops.push(Op8::R(ROp::Bits(1)));
+            ops.push(Op8::R(ROp::Peek(rkind.max_peek())));
+            if rng.chance(1, 2) {
+                ops.push(Op8::R(ROp::Bits(rng.usize_range(0, 3))));
+            }
+            let f = 2 * rwb as u64 - 1;
+            ops.push(Op8::Copy {
+                to: rng.chance(3, 4),
+                n: *rng.pick(&[f - 2, f - 1, f, f + 1, f + rwb as u64, 1, 0]),
+            });
+        }
         for _ in 0..rng.usize_range(0, 4) {
             ops.push(rop(rng));
         }
